@@ -108,7 +108,7 @@ func addrOf(p mangos.Pipe, opt string) (net.Addr, error) {
 
 func c13Addr(w *W) {
 	kind := []string{"pair", "bus", "req", "pub", "star", "xrep"}[w.Choose(simrt.SShape, 6)]
-	tran := w.simFallback([]string{"sim", "simipc", "inproc", "tcp", "ipc", "tls+tcp"}[w.Choose(simrt.SShape, 6)])
+	tran := w.simFallback([]string{"sim", "simipc", "inproc", "tcp", "ipc", "tls+tcp", "ws", "wss"}[w.Choose(simrt.SShape, 8)])
 	w.SetShape("kind", kind)
 	w.SetShape("tran", tran)
 	w.UseNet(NetCfg{Segment: w.Choose(simrt.SShape, 2) == 0})
@@ -134,7 +134,7 @@ func c13Addr(w *W) {
 		switch tran {
 		case "sim", "simipc":
 			clientOK = strings.HasPrefix(dl.String(), "client:")
-		case "tcp", "tls+tcp":
+		case "tcp", "tls+tcp", "ws", "wss":
 			clientOK = strings.HasPrefix(dl.String(), "127.0.0.1:") && dl.String() != want
 		}
 		if ll.String() != want || dr.String() != want || lr.String() != dl.String() || !clientOK {
@@ -142,8 +142,8 @@ func c13Addr(w *W) {
 			return
 		}
 	}
-	if tran == "tls+tcp" {
-		// (the listener side is the known finding recorded for engine R: the
+	if tran == "tls+tcp" || tran == "wss" {
+		// (the tls+tcp listener side is the known finding recorded for engine R: the
 		// state is captured before the handshake has run)
 		for _, x := range []struct {
 			side string
